@@ -1,3 +1,69 @@
-From Coq Require Import List String.
-Example C13_placeholder : True. Proof. exact I. Qed.
-Print Assumptions C13_placeholder.
+(** C13 — answers never depend on what was asked before (caches are invisible).  Property theorems only.
+    Cache/Memo.v models the three wrappers of spil/util/caching.py (exact popitem eviction, any capacity)
+    and functools.lru_cache (over-approximated: may forget anything); Cache/Wiring.v models how a python call
+    (positional / keyword spelling) becomes a cache key.  The tie to the code is the history correspondence
+    of tools/props/c13.py (answers after histories vs the pure model and vs fresh processes). *)
+From Coq Require Import List String Bool Arith.
+From Spil Require Import Base.Str Base.Dict Cache.Memo Cache.Wiring.
+Import ListNotations.
+
+Section Transparent.
+Variables (K V S : Type) (keq : K -> K -> bool) (f : K -> V) (truthy : V -> bool).
+Variable body : K -> S -> V * S.
+Variable InvS : S -> Prop.
+Hypothesis body_pure : forall k s, InvS s -> fst (body k s) = f k /\ InvS (snd (body k s)).
+Hypothesis keq_sound : forall a b, keq a b = true -> f a = f b.
+
+(* lru_cache / lru_kw_cache: any capacity, exact eviction; the answer is the pure one and the invariant is kept *)
+Theorem C13_transparent : forall n st k, InvSt K V S f InvS st ->
+  fst (cached_call K V S keq body n st k) = f k /\ InvSt K V S f InvS (snd (cached_call K V S keq body n st k)).
+Proof. exact (cached_call_pure K V S keq f body InvS body_pure keq_sound). Qed.
+
+(* hit_cache (stores truthy results only) *)
+Theorem C13_transparent_hit : forall n st k, InvSt K V S f InvS st ->
+  fst (hit_cached_call K V S keq truthy body n st k) = f k /\ InvSt K V S f InvS (snd (hit_cached_call K V S keq truthy body n st k)).
+Proof. exact (hit_cached_call_pure K V S keq f truthy body InvS body_pure keq_sound). Qed.
+
+(* functools.lru_cache under ANY eviction policy *)
+Theorem C13_transparent_any_eviction : forall keep st k, InvSt K V S f InvS st ->
+  fst (forgetful_call K V S keq body keep st k) = f k /\ InvSt K V S f InvS (snd (forgetful_call K V S keq body keep st k)).
+Proof. exact (forgetful_call_pure K V S keq f body InvS body_pure keq_sound). Qed.
+
+(* after any history (any length, more distinct calls than the capacity) a call answers as from the empty cache *)
+Theorem C13_history_independent : forall n h k st0, InvSt K V S f InvS st0 -> Inv K V f [] ->
+  forall s1, InvS s1 ->
+  fst (cached_call K V S keq body n (snd (run K V S keq body n st0 h)) k) = fst (cached_call K V S keq body n ([], s1) k).
+Proof. exact (history_independent K V S keq f body InvS body_pure keq_sound). Qed.
+End Transparent.
+Print Assumptions C13_transparent.
+Print Assumptions C13_transparent_hit.
+Print Assumptions C13_transparent_any_eviction.
+Print Assumptions C13_history_independent.
+
+(* positional or keyword: equal keys bind to the same arguments *)
+Theorem C13_key_sound : forall params c1 c2,
+  NoDup (map fst (c_kw c1)) -> NoDup (map fst (c_kw c2)) ->
+  keyof c1 = keyof c2 -> bind params c1 = bind params c2.
+Proof. exact key_sound. Qed.
+Print Assumptions C13_key_sound.
+
+(* the key of the pinned tree (keyword names only) was unsound: the repaired defect, as a theorem *)
+Theorem C13_names_only_key_refuted : exists params c1 c2,
+  keyof_names_only c1 = keyof_names_only c2 /\ bind params c1 <> bind params c2.
+Proof. exact names_only_key_refuted. Qed.
+Print Assumptions C13_names_only_key_refuted.
+
+(* a Sid object used as an argument never hits the entry of a plain string *)
+Theorem C13_sid_key_vs_str_key : forall u s y, s = u \/ (exists t, u = (t ++ ":" ++ s)%string) -> key_eqb (ASid u s) (AStr y) = false.
+Proof. exact sid_key_vs_str_key. Qed.
+Print Assumptions C13_sid_key_vs_str_key.
+
+(* nested caches (sid_to_sid over sid_to_dict over the resolver's cache) compose *)
+Theorem C13_nested : forall (K1 V1 K2 V2 : Type) keq1 keq2 (f2 : K2 -> V2) (g : K1 -> K2) (h : K1 -> V2 -> V1),
+  (forall a b, keq2 a b = true -> f2 a = f2 b) -> forall n2,
+  (forall a b, keq1 a b = true -> f1 K1 V1 K2 V2 f2 g h a = f1 K1 V1 K2 V2 f2 g h b) ->
+  forall n1 st k,
+  InvSt K1 V1 (table K2 V2 * unit) (f1 K1 V1 K2 V2 f2 g h) (InvSt K2 V2 unit f2 (fun _ => True)) st ->
+  fst (cached_call K1 V1 _ keq1 (outer_body K1 V1 K2 V2 keq2 f2 g h n2) n1 st k) = f1 K1 V1 K2 V2 f2 g h k.
+Proof. exact nested_pure. Qed.
+Print Assumptions C13_nested.
